@@ -1012,15 +1012,20 @@ impl Eq for RelayConnectionState {}
 /// Each [`ActiveRelayActor`] updates only the status (via [`Self::set_status`]),
 /// which guards against stale writes: if another relay has become home since this actor
 /// was designated, the write is silently dropped.
+///
+/// All writers hold `write_lock`, so that the URL check and the write in
+/// [`Self::set_status`] are atomic with respect to [`Self::set`] and [`Self::clear`].
 #[derive(Debug, Clone)]
 pub(crate) struct HomeRelayWatch {
     inner: Watchable<Option<RelayStatus>>,
+    write_lock: Arc<std::sync::Mutex<()>>,
 }
 
 impl Default for HomeRelayWatch {
     fn default() -> Self {
         Self {
             inner: Watchable::new(None),
+            write_lock: Default::default(),
         }
     }
 }
@@ -1028,6 +1033,7 @@ impl Default for HomeRelayWatch {
 impl HomeRelayWatch {
     /// Set the home relay URL and status. Used by [`RelayActor`] on relay changes.
     fn set(&self, url: RelayUrl, state: RelayConnectionState) {
+        let _guard = self.write_lock.lock().expect("poisoned");
         let _ = self.inner.set(Some(RelayStatus::new(url, state)));
         #[cfg(iroh_verif)]
         self.verif_event("c26.set", None);
@@ -1035,6 +1041,7 @@ impl HomeRelayWatch {
 
     /// Clear the home relay (no preferred relay). Used by [`RelayActor`].
     fn clear(&self) {
+        let _guard = self.write_lock.lock().expect("poisoned");
         let _ = self.inner.set(None);
         #[cfg(iroh_verif)]
         self.verif_event("c26.clear", None);
@@ -1047,6 +1054,7 @@ impl HomeRelayWatch {
     /// updates the URL in the watchable *before* sending `SetHomeRelay(false)`, so by
     /// the time the old actor tries to write, the URL no longer matches.
     fn set_status(&self, url: &RelayUrl, state: RelayConnectionState) {
+        let _guard = self.write_lock.lock().expect("poisoned");
         if self.inner.get().as_ref().map(RelayStatus::url) == Some(url) {
             #[cfg(iroh_verif)]
             {
